@@ -268,6 +268,9 @@ func (r *Result) FaultsFired() []string {
 		if strings.HasPrefix(l, "fs ") {
 			if i := strings.Index(l, " fault="); i >= 0 {
 				k := l[i+len(" fault="):]
+				if j := strings.IndexByte(k, ' '); j >= 0 {
+					k = k[:j] // "none armed=<kind>": a byte-level fault armed at open that has not fired (yet)
+				}
 				if k != "none" {
 					op := ""
 					if j := strings.Index(l, "op="); j >= 0 {
